@@ -10,6 +10,7 @@ import (
 	"sort"
 	"strconv"
 	"strings"
+	"time"
 )
 
 // ---------------------------------------------------------------------------
@@ -321,6 +322,7 @@ func runOSeq(v int, ops []oop) string {
 }
 
 func c06Oracle(c *oracleCtx) {
+	rawStrings(c, "object")
 	c.rule = "operation sequences on a pool of live objects (3 pools incl. empty key, shared nested containers, duplicate keys), every object compared with a map model after every step (Get/KeyExists/TypeOf/Keys/Values/Dict/Count), exact panics; distinct = distinct sequences"
 	if c.filter != nil {
 		for id := range c.filter {
@@ -386,6 +388,64 @@ type treeGen struct {
 	make func() any
 }
 
+// strings that are not valid UTF-8 (Latin-1 text, lone bytes, truncated sequences, an encoded surrogate) next to the
+// valid strings they print like
+var rawStrs = []string{"Ren\xe9e", "Ren\xe8e", "\xff", "\ufffd", "\xe2\x82", "\xc3\xc3", "\xed\xa0\x80", "\ufffd\ufffd"}
+
+// rawStrings: a string value / key is held byte for byte by every entry point and found again by the searches
+func rawStrings(c *oracleCtx, what string) {
+	for i, s := range rawStrs {
+		s := s
+		if what != "object" {
+			c.check(fmt.Sprintf("raw-string:list:%d", i), true, func() string {
+				ls := map[string]List{"NewList": NewList(s, 1), "Add": NewList().Add(s), "Insert": NewList(1).Insert(0, s), "Replace": NewList(1).Replace(0, s),
+					"NewListOf": NewListOf(s, 2), "NewListFrom[]string": NewListFrom([]string{s, "x"}), "NewListFrom[]any": NewListFrom([]any{s}), "SetTF": NewList().SetTF("#0", s),
+					"Clone": NewList(s).Clone(), "SubList": NewList(s, s).SubList(0, 1), "Concat": NewList(s).Concat(NewList(1)), "nested-native": NewList([]string{s}).GetList(0),
+					"MapStrings": NewList("q").MapStrings(func(string) any { return s }), "Sort": NewList(s, s).Sort(), "Reverse": NewList(1, s).Reverse()}
+				for name, l := range ls {
+					if got, ok := l.Get(0).(string); !ok || got != s || l.GetString(0) != s {
+						return fmt.Sprintf("%s: stored %q reads back as %q", name, s, l.Get(0))
+					}
+					if l.IndexOf(s) != 0 || !l.Contains(s) {
+						return fmt.Sprintf("%s: stored %q is not found by IndexOf / Contains", name, s)
+					}
+					for _, o := range rawStrs {
+						if o != s && (l.IndexOf(o) >= 0 || l.Contains(o)) {
+							return fmt.Sprintf("%s: %q found in a list that holds %q", name, o, s)
+						}
+					}
+				}
+				return ""
+			})
+		}
+		if what != "list" {
+			c.check(fmt.Sprintf("raw-string:object:%d", i), true, func() string {
+				os := map[string]Object{"NewObject": NewObject("k", s), "Set": NewObject().Set("k", s), "SetTF": NewObject().SetTF(".k", s),
+					"From-map-string": NewObjectFrom(map[string]string{"k": s}), "From-map-any": NewObjectFrom(map[string]any{"k": s}), "Clone": NewObject("k", s).Clone(),
+					"Merge": NewObject().Merge(NewObject("k", s)), "Pluck": NewObject("k", s, "z", 1).Pluck("k"), "nested-native": NewObject("o", map[string]string{"k": s}).GetObject("o")}
+				for name, o := range os {
+					if got, ok := o.Get("k").(string); !ok || got != s || o.GetString("k") != s {
+						return fmt.Sprintf("%s: stored %q reads back as %q", name, s, o.Get("k"))
+					}
+				}
+				// as a key
+				ks := map[string]Object{"NewObject": NewObject(s, 1), "Set": NewObject().Set(s, 1), "From-map": NewObjectFrom(map[string]int{s: 1}), "Clone": NewObject(s, 1).Clone()}
+				for name, o := range ks {
+					if !o.KeyExists(s) || o.Keys().Count() != 1 || o.Keys().GetString(0) != s {
+						return fmt.Sprintf("%s: key %q is not kept byte for byte", name, s)
+					}
+					for _, other := range rawStrs {
+						if other != s && o.KeyExists(other) {
+							return fmt.Sprintf("%s: key %q exists in an object whose only key is %q", name, other, s)
+						}
+					}
+				}
+				return ""
+			})
+		}
+	}
+}
+
 func smallTrees() []treeGen {
 	leaves := []leafSpec{{"nil", nil}, {"t", true}, {"i1", 1}, {"f1", 1.0}, {"s", "s"}, {"i2", 2}, {"e", ""}}
 	var out []treeGen
@@ -430,6 +490,15 @@ func smallTrees() []treeGen {
 		treeGen{"L(L(),O(),i1)", func() any { return NewList(NewList(), NewObject(), 1) }},
 		treeGen{"O(a=O(a=L()))", func() any { return NewObject("a", NewObject("a", NewList())) }},
 		treeGen{"L(L(L()))", func() any { return NewList(NewList(NewList())) }})
+	// strings are byte sequences: ill-formed UTF-8 that prints alike (every bad byte shows as U+FFFD) is still different
+	for i, s := range rawStrs {
+		s, id := s, fmt.Sprintf("raw%d", i)
+		out = append(out,
+			treeGen{"L(" + id + ")", func() any { return NewList(s) }},
+			treeGen{"O(a=" + id + ")", func() any { return NewObject("a", s) }},
+			treeGen{"L(L(" + id + "))", func() any { return NewList(NewList(s)) }},
+			treeGen{"O(" + id + "=i1)", func() any { return NewObject(s, 1) }})
+	}
 	for _, a := range leaves {
 		a := a
 		out = append(out,
@@ -947,6 +1016,7 @@ func normNative(v any) any {
 // C12
 
 func c12Oracle(c *oracleCtx) {
+	rawStrings(c, "both")
 	c.check("typed-native-nil-entries", true, func() string {
 		// nil entries of natively typed slices / maps become the nil kind, like everywhere else
 		var nilO Object
@@ -977,9 +1047,9 @@ func c12Oracle(c *oracleCtx) {
 		{"int64-min", int64(math.MinInt64), math.MinInt64}, {"uint8-200", uint8(200), 200}, {"uint8-255", uint8(255), 255}, {"uint16-40000", uint16(40000), 40000},
 		{"uint32-3e9", uint32(3000000000), 3000000000}, {"uint64-maxint", uint64(math.MaxInt64), math.MaxInt64}, {"uint-maxint", uint(math.MaxInt), math.MaxInt},
 		{"uint-0", uint(0), 0}, {"f32-0.1", float32(0.1), float64(float32(0.1))}, {"f32-sub", float32(1e-45), float64(float32(1e-45))}, {"f64", 2.5, 2.5},
-		{"str", "x", "x"}, {"bool", true, true}, {"nil", nil, nil}, {"int", -5, -5},
+		{"str", "x", "x"}, {"str-latin1", "caf\xe9", "caf\xe9"}, {"str-ff", "\xff", "\xff"}, {"str-cut", "\xe2\x82", "\xe2\x82"}, {"str-surrogate", "\xed\xa0\x80", "\xed\xa0\x80"}, {"bool", true, true}, {"nil", nil, nil}, {"int", -5, -5},
 	}
-	c.bound = fmt.Sprintf("%d scalar boundary values x 9 entry points, 14 native flavours, 6 unsupported types", len(cases))
+	c.bound = fmt.Sprintf("%d scalar boundary values x 9 entry points, 14 native flavours, 25 unsupported types (defined types over every scalar kind, pointers, arrays, funcs, channels), %d raw byte strings through every entry point", len(cases), len(rawStrs))
 	entry := func(name string, v any) (any, Type, []func()) {
 		switch name {
 		case "NewList":
@@ -1070,7 +1140,10 @@ func c12Oracle(c *oracleCtx) {
 			return ""
 		})
 	}
-	for i, u := range []any{struct{}{}, []int8{1}, map[int]string{}, complex(1, 1), uintptr(1), []any{struct{}{}}} {
+	for i, u := range []any{struct{}{}, []int8{1}, map[int]string{}, complex(1, 1), uintptr(1), []any{struct{}{}},
+		// defined types are other types than the ones they are built on
+		time.Duration(1500), time.Saturday, namedInt8(3), namedUint(3), namedString("x"), namedBool(true), namedFloat(1.5), namedFloat32(1.5), namedSlice{1}, namedMap{"a": 1},
+		[]time.Duration{1}, map[string]namedInt8{"a": 1}, new(int), &struct{}{}, []any{time.Duration(1)}, map[string]any{"k": namedString("x")}, [2]int{1, 2}, func() {}, make(chan int)} {
 		i, u := i, u
 		c.check(fmt.Sprintf("unsupported:%d", i), true, func() string {
 			l := NewList(1, 2)
@@ -1099,6 +1172,15 @@ func c12Oracle(c *oracleCtx) {
 		return ""
 	})
 }
+
+type namedInt8 int8
+type namedUint uint
+type namedString string
+type namedBool bool
+type namedFloat float64
+type namedFloat32 float32
+type namedSlice []int
+type namedMap map[string]int
 
 func lgetters(l List, i int) []func() {
 	return []func(){func() { l.GetObject(i) }, func() { l.GetList(i) }, func() { l.GetString(i) }, func() { l.GetBool(i) }, func() { l.GetInt(i) }, func() { l.GetFloat(i) }}
